@@ -307,12 +307,17 @@ func readAll(wire []byte, stopAfter map[int]bool, adj map[int]int, bounds map[in
 		h = (h ^ uint64(b)) * 1099511628211
 	}
 	r0, pos0 := readOnce(append([]byte(nil), wire...), 0, stopAfter, adj, bounds, hdrRanges, contOK)
-	for _, seg := range []int{1, -int(h%1000000) - 1} {
+	segs := []int{1, -int(h%1000000) - 1}
+	if !segThisOp {
+		segs = nil // the segmented readings are done for one op in three (chosen by the op text, see exec)
+	}
+	for _, seg := range segs {
 		r, _ := readOnce(append([]byte(nil), wire...), seg, stopAfter, adj, bounds, hdrRanges, contOK)
-		if r == r0 {
+		// (allocation bursts are measured in the first run only)
+		if r == strings.ReplaceAll(r0, "!big", "") {
 			continue
 		}
-		a, b := strings.Split(r0, " "), strings.Split(r, " ")
+		a, b := strings.Split(strings.ReplaceAll(r0, "!big", ""), " "), strings.Split(r, " ")
 		i := 0
 		for i < len(a) && i < len(b) && a[i] == b[i] {
 			i++
@@ -347,13 +352,18 @@ func readOnce(wire []byte, seg int, stopAfter map[int]bool, adj map[int]int, bou
 			t := int(wire[pos+2])<<8 | int(wire[pos+3])
 			isHdr = t == 1 || t == 2 || t == 8
 		}
-		runtime.ReadMemStats(&ms)
-		a0 := ms.TotalAlloc
+		var a0 uint64
+		if seg == 0 {
+			runtime.ReadMemStats(&ms)
+			a0 = ms.TotalAlloc
+		}
 		f, err := fr.ReadFrame()
-		runtime.ReadMemStats(&ms)
 		big := ""
-		if ms.TotalAlloc-a0 >= bigAlloc {
-			big = "!big"
+		if seg == 0 {
+			runtime.ReadMemStats(&ms)
+			if ms.TotalAlloc-a0 >= bigAlloc {
+				big = "!big"
+			}
 		}
 		consumed := len(wire) - br.Len()
 		poss = append(poss, pos)
@@ -846,7 +856,16 @@ func walk(w []byte, hdrStarts []int) string {
 	return ""
 }
 
+// segThisOp: whether the current op is also read through the segmenting readers (a function of the op text only, so
+// that the Lean driver knows it too: sum of the bytes of the op line divisible by 3)
+var segThisOp bool
+
 func exec(op string) string {
+	sum := 0
+	for i := 0; i < len(op); i++ {
+		sum += int(op[i])
+	}
+	segThisOp = sum%3 == 0
 	f := strings.Split(op, " ")
 	if len(f) < 1 {
 		return "bad-op"
